@@ -42,6 +42,10 @@ fn slpp_writable(v: spec::V, nports: usize) -> bool {
 }
 
 pub fn main(name: &str, shard: usize, nshards: usize, compress: bool) -> i32 {
+	// odd shards run with a discarding Trace-level logger, so the arguments of the library's log
+	// macros are evaluated under the instrumented runtime as well
+	crate::driver::install_logger();
+	crate::driver::set_logging_for_case(shard);
 	let mut evals = 0u64;
 	let mut bad: Vec<String> = vec![];
 	let comps: Vec<Comp> = if compress { vec![Comp::None, Comp::Lz4, Comp::Zstd] } else { vec![Comp::None] };
@@ -67,6 +71,11 @@ pub fn main(name: &str, shard: usize, nshards: usize, compress: bool) -> i32 {
 					Ok(_) => bad.push(format!("{}: round trip differs", desc)),
 					Err(f) => bad.push(format!("{}: write: {}", desc, f.text())),
 				}
+				let (r, sink) = common::slp_write_sink(&g, crate::iofault::Sink::short(7));
+				if r.is_err() || sink.buf != b.bytes {
+					bad.push(format!("{}: write through a 7-byte sink differs", desc));
+				}
+				evals += 1;
 				// row views, column access, rollback masks
 				let version = g.start.slippi.version;
 				let cols = view::cols_imm(&g.frames);
